@@ -46,13 +46,18 @@ def Registered (st : State) : PathKey → Handler → Prop
       ((∃ p, p ∈ winParts (st.stream si) ∧ p.id = id ∧ h = .part p) ∨
        (id = (st.stream si).nextPartID ∧ 0 < id ∧ h = .hint si id))
 
-def PathKey.isInit : PathKey → Bool
+def isInitKey : PathKey → Bool
   | .init _ => true
   | _ => false
 
 /-- segment and part keys (the media URIs whose content must never change) -/
-def PathKey.isMedia : PathKey → Bool
+def isMediaKey : PathKey → Bool
   | .seg _ _ | .part _ _ => true
+  | _ => false
+
+/-- a body that is real media content (not "nothing", not the waiting preload hint, not init / playlist) -/
+def isContent : Body → Bool
+  | .segFMP4 _ | .segTS _ | .part _ => true
   | _ => false
 
 /-- the segment keys and part keys listed by a media playlist (not the map, not the hint) -/
